@@ -15,7 +15,7 @@ from ..core import Check, h8
 from ..fsutil import DIR, Scratch, TreeModel, show, snap
 from .c10_atomic import apply_model
 
-INIT = {"a.py": b"A = 1\n", "b.py": b"B = 2\n", "d": DIR, "d/a.py": b"DA = 3\n"}
+INIT = {"a.py": b"A = 1\n", "b.py": b"B = 2\n", "d": DIR, "d/a.py": b"DA = 3\n", "d2": DIR, "d2/b.py": b"D2B = 4\n"}
 
 # candidate do-events; each is a list of primitive ops (one ChangeSet); enabled by the model
 DO_EVENTS = [
@@ -26,6 +26,8 @@ DO_EVENTS = [
     [("CD", "", "e"), ("MV", "a.py", "e/a.py")], [("W", "a.py"), ("W", "b.py")],
     # a content change that switches the file from LF to CRLF line ends (the text itself contains \r\n)
     [("WCR", "a.py")],
+    # a change in a sibling folder whose name starts with the name of folder d; a change set without any change
+    [("W", "d2/b.py")], [],
 ]
 DO_SMALL = [DO_EVENTS[i] for i in (0, 1, 2, 6, 8, 9, 11, 12, 16, 18)]
 
@@ -206,7 +208,10 @@ class Runner:
             feats += ["do:" + o[0] for o in ev[1]]
             if len(ev[1]) > 1:
                 feats.append("do:multi")
-            m.undo.append(e)
+            if ev[1]:
+                m.undo.append(e)      # a change set that touches no resource is performed but not recorded
+            else:
+                feats.append("do:empty")
             while len(m.undo) > max(m.limit, 0):
                 old = m.undo.pop(0)
                 old.apply(m.base, False)
@@ -319,7 +324,7 @@ class C11(Check):
     pid = "C11"
     case_timeout = 600
     level = "model_checking"
-    rule = ("states are event histories: all sequences of do(c) (18 change shapes over {a.py,b.py,d/,d/a.py,e/}, incl. "
+    rule = ("states are event histories: all sequences of do(c) (21 change shapes over {a.py,b.py,d/,d/a.py,e/}, incl. "
             "two-step sets and removals), undo(), redo(), undo(change=undo_list[i]), redo(change=redo_list[i]), undo(drop=True) "
             "enabled in the reference model, to depth d, for max_history_items in {0,1,2,32}; each sequence is replayed on a "
             "fresh real Project and its last step compared with the reference model (tree, both history lists, returned changes, "
@@ -333,13 +338,13 @@ class C11(Check):
     budget_quick = 200
 
     def bound_text(self, tier):
-        return "depth 4, limits {0,1,2,32}" if tier == "quick" else "depth 5 (full alphabet, limits {2,32}); depth 6 (9-event sub-alphabet, limit 32); depth 5 limits {0,1}"
+        return "depth 4 for history limits {2,32}, depth 3 for limits {0,1}" if tier == "quick" else "depth 5 (full alphabet, limits {2,32}); depth 6 (9-event sub-alphabet, limit 32); depth 5 limits {0,1}"
 
     def cases(self, tier):
         # a case = (limit, alphabet id, depth, first event index list) ; workers expand below the first two events
         out = []
         if tier == "quick":
-            plan = [(0, "full", 4), (1, "full", 4), (2, "full", 4), (32, "full", 4)]
+            plan = [(0, "full", 3), (1, "full", 3), (2, "full", 4), (32, "full", 4)]
         else:
             plan = [(0, "full", 5), (1, "full", 5), (2, "full", 5), (32, "full", 5), (32, "small", 6)]
         for limit, alpha, depth in plan:
